@@ -69,6 +69,35 @@ TEXT = {
          'only the plotly backend is mapped back; backends are outside the model',
          'Lean 4 theorems over a group action on a module + decide over generated tables + exact disp correspondence + figure-trace oracle'),
 }
+
+# additions of the third session (appended to the level text / the technique of the property)
+EXTRA = {
+ "C01": (" Third session: the port of magnet_cuboid_Bfield = the Coulombian six-face surface-charge integral (+ J inside) for every observer off the six face planes, all octants (iterated FTC); the regenerated concolic traces of the real Dipole / Sphere / Cuboid kernels are proved equal to the model at the real carrier.",
+         " + kernels regenerated by concolic tracing of the numpy source (Gen/KernTrace) with trace = model theorems + symbolic correspondence (formulas compared as rational functions over F_p)"),
+ "C02": (" Third session: the whole ported CylinderSegment wrapper (cylseg_consistent); trace = model theorems for the Sphere and Dipole wrappers.",
+         " + regenerated kernel traces and CylinderSegment translation (sync theorems) + symbolic correspondence"),
+ "C05": (" Third session: Cylinder in full; CylinderSegment proportional to the magnetization amplitude (direction: not shown).",
+         " + symbolic correspondence + CylinderSegment kern rows"),
+ "C06": (" Third session: determine_cases always returns one of the 26 handled or the 4 unhandled ids, the dispatch falls through exactly on the latter.",
+         " + iface stream + CylinderSegment kern rows"),
+ "C07": (" Third session: the input-formatting glue and the method wrappers are modelled: src.getX / sens.getX / coll.getX (three branches) equal the top-level call with flags passed unchanged; bare position arrays = a Sensor at the origin; format_src_inputs flattens in order at any depth and keeps duplicates.",
+         " + exact iface correspondence (random worlds x entry points x argument nestings x malformed calls)"),
+ "C09": (" Third session: rotate_from_angax = rotate of the rotation vectors (angle in radians) * axis/|axis|, bad axes refused, scalar/vector form preserved.",
+         " + angax ops in the path stream"),
+ "C12": (" Third session: Cylinder and the TriangularMesh inside test are ported and proved scale invariant; self-intersection check covariant when eps scales along (not invariant: witness).",
+         " + regenerated kernel traces + symbolic correspondence"),
+ "C13": (" Third session: full 360 degree CylinderSegment = Cylinder(r2) - Cylinder(r1) (structural), arctan_k_tan_2 periodic continuation.",
+         " + symbolic correspondence + CylinderSegment kern rows"),
+ "C14": (" Third session: div H = 0 for the straight segment at every placement off the carrier line.", ""),
+ "C15": (" Third session: Cuboid: off the edges all six log products are positive after the reflection and no arctan2 gets (0,0) off the edge lines; Triangle sheet: every divisor / log argument defined off the closed edges and off the cap r = l (the cap is a recorded finding); Polyline masks cover the singular rows; Cylinder iteration and masks.",
+         " + regenerated kernel traces + symbolic correspondence"),
+ "C16": (" Third session: segments_intersect_facets / get_intersecting_triangles ported with float32 rounding as a parameter: soundness, completeness for proper crossings, face-order and translation invariance, scale covariance; four recorded findings.",
+         " + exact selfint correspondence (float32 bit-exact)"),
+ "C19": (" Third session: vertex coordinates of Prism, Pyramid, CylinderSegment, Ellipsoid and the Circle / Polyline traces (np.linspace modelled) lie on the respective surfaces and reach their extremes.",
+         " + trig generator rows in the disp stream (IEEE double, 1e-12)"),
+ "C20": (" Third session: style_temp_edit restores the object's own style however the drawing ends (regenerated try/finally skeleton).",
+         " + generated skeleton of style_temp_edit (Gen/StyleTemp)"),
+}
 props = [json.loads(l) for l in open("properties.jsonl")]
 checks = []
 na = []
@@ -76,6 +105,8 @@ for p in props:
     i = p["id"]
     if i in TEXT:
         t = TEXT[i]
+        ex = EXTRA.get(i, ("", ""))
+        t = (t[0] + ex[0], t[1], t[2] + ex[1])
         checks.append({
             "property_id": i,
             "quick_cmd": f"{PY} check.py {i} --tier quick",
